@@ -32,8 +32,8 @@ func init() {
 		NotCovered: "renaming, parenthesisation, reordering of declarations: relations between two whole checker runs.",
 	}
 	props["C34"] = &PropSpec{
-		Rules:      []string{"test/filter-guard", "test/exit-status", "test/suite-filter-eval", "path/savedrestore-test"},
-		Decides:    "that a case or sub-suite is registered only on the matching branch of the filter test; that the filter combination function SuiteMatchesFilters has the specified result for every sequence of up to three filter answers (exhaustive over a finite domain it touches only through comparisons); that `elk test` exits non-zero unless the report exists and is TEST_SUCCESS; that `describe` restores the current suite on every exit.",
+		Rules:      []string{"test/filter-guard", "test/exit-status", "test/suite-filter-eval", "test/full-match-sound", "path/savedrestore-test"},
+		Decides:    "that a filter which selects cases by a regular expression on their names never declares a whole suite matched (which would run the suite's cases without trying the expression on them); that a case or sub-suite is registered only on the matching branch of the filter test; that the filter combination function SuiteMatchesFilters has the specified result for every sequence of up to three filter answers (exhaustive over a finite domain it touches only through comparisons); that `elk test` exits non-zero unless the report exists and is TEST_SUCCESS; that `describe` restores the current suite on every exit.",
 		NotCovered: "that every registered case runs exactly once and that reports aggregate child statuses correctly; path/regex filter matching itself.",
 	}
 	props["C26"] = &PropSpec{
